@@ -32,7 +32,10 @@ MANIFEST = dict(
           "the container (container_contents_invisible, parsed_container_text_invisible). Tie: differential runs of the real code on "
           "parsed (html.parser, malformed markup included) and API-built/edited trees with every string class under every kind of "
           "parent, every element and string as receiver, the argument grid (strip as bool/int/None/str, types as class/None/tuple/list/"
-          "set/frozenset/dict/one-shot iterator), custom string_containers and hand-set interesting_string_types, copies, "
+          "set/frozenset/dict/one-shot iterator), custom string_containers (incl. builder tables in which one name is both a string container and "
+          "whitespace-preserving, and void elements as containers: text before, inside and after such elements, nested and re-opened, "
+          "against the nearest-open-container rule and against C03's machine run with builderCfg) and hand-set "
+          "interesting_string_types, copies, "
           "ask-edit-ask sequences, real edit histories against the pointer-heap model; against the Lean mirrors, the Lean evaluator "
           "and an independent Python evaluator over .contents (object identity of the yielded strings included)."),
     design="7/C13",
@@ -122,11 +125,26 @@ def show_pieces(l) -> str:
 # --------------------------------------------------------------------------------------
 # configurations (string_containers passed to the builder)
 # --------------------------------------------------------------------------------------
-CONFIGS = ["default", "default", "default", "empty", "b-sub", "default+", "script-plain"]
+CONFIGS = ["default", "default", "default", "empty", "b-sub", "default+", "script-plain", "overlap-pre", "overlap-script",
+           "overlap-void"]
+DEFAULT_PRESERVE = ("pre", "textarea")
+VOID = ("br", "hr")
+
+
+def config_preserve(name):
+    """the preserve_whitespace_tags in force (the property says nothing about them; they matter because the parser keeps
+    a second context stack for them beside the string-container stack)"""
+    if name == "overlap-script":
+        return ("pre", "textarea", "script", "rt", "template")
+    if name == "overlap-void":
+        return ("pre", "textarea", "br")
+    return DEFAULT_PRESERVE
 
 
 def config_containers(name):
-    """-> (kwargs for BeautifulSoup, expected {tag name: class name}) \u2014 expectation from the property statement"""
+    """-> (kwargs for BeautifulSoup, expected {tag name: class name}) - expectation from the property statement.
+    The overlap-* configurations put one name into BOTH builder tables (string_containers and preserve_whitespace_tags; the
+    stock tables are disjoint), overlap-void also makes void elements (br, hr) string containers."""
     c = E()["cls"]
     if name == "default":
         return {}, dict(PROP_CONTAINERS)
@@ -140,6 +158,14 @@ def config_containers(name):
     if name == "script-plain":
         d = {"script": "NavigableString", "style": "Stylesheet", "span": "Doctype"}
         return {"string_containers": {k: c[v] for k, v in d.items()}}, d
+    if name == "overlap-pre":
+        d = dict(PROP_CONTAINERS) | {"pre": "SubNS"}
+        return {"string_containers": {k: c[v] for k, v in d.items()}}, d
+    if name == "overlap-script":
+        return {"preserve_whitespace_tags": set(config_preserve(name))}, dict(PROP_CONTAINERS)
+    if name == "overlap-void":
+        d = dict(PROP_CONTAINERS) | {"br": "SubNS", "hr": "SubScript", "pre": "Stylesheet"}
+        return {"string_containers": {k: c[v] for k, v in d.items()}, "preserve_whitespace_tags": set(config_preserve(name))}, d
     raise KeyError(name)
 
 
@@ -153,7 +179,7 @@ def expected_interesting(sc: dict, name: str):
 # --------------------------------------------------------------------------------------
 # markup generation (html.parser) with the expected class of every parsed string
 # --------------------------------------------------------------------------------------
-ORD_TAGS = ["div", "p", "b", "i", "span", "ruby", "section", "a"]
+ORD_TAGS = ["div", "p", "b", "i", "span", "ruby", "section", "a", "pre"]
 
 
 def rand_text(r, label, allow_empty=False, parsed=False):
@@ -178,7 +204,7 @@ def gen_markup(r, sc: dict, live_names):
     """-> markup, expected [(class name, stripped text)] in document order"""
     counter = [0]
     exp = []
-    names = ORD_TAGS + list(PROP_CONTAINERS) + [n for n in live_names if n not in PROP_CONTAINERS]
+    names = ORD_TAGS + list(PROP_CONTAINERS) + [n for n in live_names if n not in PROP_CONTAINERS] + list(VOID) + ["pre"]
 
     def text(container):
         counter[0] += 1
@@ -216,6 +242,10 @@ def gen_markup(r, sc: dict, live_names):
             elif depth < 4:
                 nm = r.choice(names)
                 inner = sc.get(nm, container) if nm in sc else container
+                if nm in VOID:
+                    out.append(f"<{nm}>" if r.random() < 0.6 else f"<{nm}/>")
+                    last_text = False
+                    continue
                 if nm in ("script", "style"):
                     # CDATA content model of html.parser: raw text only
                     body = ""
@@ -1045,7 +1075,7 @@ def ancestor_rule_failures(soup, sc):
     return bad
 
 
-RULE_CONFIGS = ("default", "empty", "b-sub")  # container classes disjoint from the classes the builder assigns itself
+RULE_CONFIGS = ("default", "empty", "b-sub", "overlap-pre", "overlap-script", "overlap-void")  # container classes disjoint from the classes the builder assigns itself
 
 
 def check_ancestor_rule(ctx, recipe, soup, sc, stream):
@@ -1062,7 +1092,7 @@ def check_ancestor_rule(ctx, recipe, soup, sc, stream):
                           observed=[b[:2] for b in bad], stream=stream + "-ancestor-rule")
 
 
-MAL_TOKENS = ["<p>", "</p>", "<b>", "</b>", "<i a='1'>", "</i>", "<script>", "</script>", "<style>", "</style>", "<template>",
+MAL_TOKENS = ["<pre>", "</pre>", "<pre>", "</pre>", "<br>", "<br/>", "<hr>", "<p>", "</p>", "<b>", "</b>", "<i a='1'>", "</i>", "<script>", "</script>", "<style>", "</style>", "<template>",
               "</template>", "<rt>", "</rt>", "<rp>", "</rp>", "<ruby>", "</ruby>", "<!--", "-->", "<![CDATA[", "]]>",
               "<!DOCTYPE x>", "<?pi", "?>", ">", "<", "&amp;", "&#x41;", "&lt;", "<p", "</", "<![if x]>", "<![endif]>", " ", "\n",
               "t", "u ", " \xa0", "<div>", "</div>", "<textarea>", "</textarea>", "<SCRIPT>", "</Script >", "<b/>", "<script/>"]
@@ -1395,47 +1425,82 @@ def stream_config(ctx):
 
 
 def stream_nesting(ctx, n_docs):
-    """nested and re-opened string containers: <a><rt><template><b>x ... - the class of x is that of the innermost OPEN container"""
+    """nested, re-opened and closed string containers under configurations whose builder tables overlap: text before, inside and
+    AFTER the elements. Oracles: (1) every marker text has the class of the innermost container OPEN when it was written,
+    (2) the nearest-container-ancestor rule on the finished tree; model: C03's machine with `builderCfg` (both context stacks)."""
     e = E()
     c = e["cls"]
+    NS = e["el"].NavigableString
     lines, real, cases = [], [], []
     for di in range(n_docs):
         r = ctx.rng("nesting", di)
-        cfg = r.choice(["default", "default", "default+", "b-sub", "empty"])
+        cfg = r.choice(["default", "default+", "b-sub", "empty", "overlap-pre", "overlap-pre", "overlap-script", "overlap-script",
+                        "overlap-void", "overlap-void"])
         kwargs, sc = config_containers(cfg)
-        pool = ["b", "p", "i", "div", "template", "rt", "rp", "template", "rt"]
-        open_names = []
+        pres = config_preserve(cfg)
+        pool = ["b", "p", "i", "div", "template", "rt", "rp", "template", "rt", "pre", "pre", "br", "hr"]
+        open_names, events, marks = [], [], []
         markup = ""
-        for _ in range(r.randint(1, 8)):
-            if open_names and r.random() < 0.3:
-                markup += f"</{open_names.pop()}>"
+        last_text = False
+        for k in range(r.randint(2, 12)):
+            j = r.random()
+            if j < 0.35 and not last_text:
+                t = f"x{di}_{k}"
+                markup += t
+                events.append("d:" + arg_tok(t))
+                inner = next((n for n in reversed(open_names) if n in sc), None)
+                marks.append((t, sc[inner] if inner is not None else "NavigableString"))
+                last_text = True
+                continue
+            last_text = False
+            if open_names and j < 0.6:
+                # close the innermost element, or (sometimes) one further out: _popToTag closes everything above it too
+                idx = len(open_names) - 1 if r.random() < 0.8 else r.randrange(len(open_names))
+                nm = open_names[idx]
+                idx = len(open_names) - 1 - open_names[::-1].index(nm)
+                del open_names[idx:]
+                markup += f"</{nm}>"
+                events.append("e:" + arg_tok(nm))
             else:
                 nm = r.choice(pool)
-                open_names.append(nm)
-                markup += f"<{nm}>"
-        markup += f"x{di}"
+                if nm in VOID:
+                    markup += f"<{nm}>"
+                    events += ["s:" + arg_tok(nm), "e:" + arg_tok(nm)]
+                else:
+                    open_names.append(nm)
+                    markup += f"<{nm}>"
+                    events.append("s:" + arg_tok(nm))
         soup = e["BeautifulSoup"](markup, "html.parser", **kwargs)
-        strs = [s for s in all_nodes(soup) if isinstance(s, e["el"].NavigableString) and str(s) == f"x{di}"]
-        got = type(strs[0]).__name__ if len(strs) == 1 else f"<{len(strs)} strings>"
-        inner = next((n for n in reversed(open_names) if n in sc), None)
-        want = sc[inner] if inner is not None else "NavigableString"
-        ctx.case(("NEST", markup, cfg) if sum(1 for n in open_names if n in sc) >= 2 else None)
-        ctx.count("nesting:open-containers-" + str(min(3, sum(1 for n in open_names if n in sc))))
-        case = {"op": "nesting", "markup": markup, "config": cfg, "open": open_names}
-        if got != want and sum(1 for v in ctx.violations if v["stream"] == "nesting") < 4:
-            ctx.violation("text inside nested string containers does not get the class of the innermost open one", case=case,
-                          expected=want, observed=got, stream="nesting")
+        strs = [x for x in all_nodes(soup) if isinstance(x, NS)]
+        by_text = {str(x): type(x).__name__ for x in strs}
+        got = [(t, by_text.get(t, "<missing>")) for t, _ in marks]
+        both = [n for n in sc if n in pres]
+        after_overlap = any(f"</{n}>" in markup or (n in VOID and f"<{n}>" in markup) for n in both)
+        ctx.case(("NEST", markup, cfg) if (after_overlap and marks) or sum(1 for n in open_names if n in sc) >= 2 else None)
+        ctx.count("nesting:config-" + cfg)
+        if after_overlap and marks:
+            ctx.count("nesting:text-with-a-closed-overlapping-element")
+        case = {"op": "nesting", "markup": markup, "config": cfg, "marks": [list(m) for m in marks]}
+        if got != marks and sum(1 for v in ctx.violations if v["stream"] == "nesting") < 4:
+            ctx.violation("parsed text does not get the class of the innermost string container open at that point", case=case,
+                          expected=[m[1] for m in marks], observed=[g[1] for g in got], stream="nesting")
+        recipe = {"markup": markup, "config": cfg, "ops": []}
+        for t in all_nodes(soup):
+            if is_tag(t):
+                set_exp(t, expected_interesting(sc, t.name))
+        check_ancestor_rule(ctx, recipe, soup, sc, "nesting")
         live_sc = soup.builder.string_containers
-        lines.append(f"c13 cstack {sc_tok(live_sc)} {';'.join(arg_tok(n) for n in reversed(open_names)) or '-'}")
-        real.append((arg_tok(inner) if inner is not None else "N") + " " + (str(cls_code(c[got])) if got in c else got))
+        live_pres = soup.builder.preserve_whitespace_tags
+        lines.append(f"c13 parsecls {sc_tok(live_sc)} {';'.join(arg_tok(n) for n in sorted(live_pres)) or '-'} {';'.join(events) or '-'}")
+        real.append(".".join(str(cls_code(type(x))) for x in strs) or "-")
         cases.append(case)
     rep = Driver().ask(lines)
     for l, a, b_, cs in zip(lines, real, rep, cases):
         if a != b_:
             ctx.corr_disagreements += 1
             if not any(v["case"] == cs for v in ctx.violations) and sum(1 for v in ctx.violations if v["stream"] == "nesting-correspondence") < 4:
-                ctx.violation("Lean mirror of the container stack and implementation disagree", case=cs | {"line": l}, observed=a, model=b_,
-                              stream="nesting-correspondence", no_failing_input=True)
+                ctx.violation("C03's parser machine instantiated with this configuration and the implementation disagree on the string classes",
+                              case=cs | {"line": l}, observed=a, model=b_, stream="nesting-correspondence", no_failing_input=True)
 
 
 def stream_strip(ctx):
@@ -1807,11 +1872,22 @@ def replay(path):
         e = E()
         kwargs, sc = config_containers(c["config"])
         soup = e["BeautifulSoup"](c["markup"], "html.parser", **kwargs)
-        strs = [(type(s).__name__, str(s)) for s in all_nodes(soup) if isinstance(s, e["el"].NavigableString)]
-        print("markup:", c["markup"], "config:", c["config"])
-        print("implementation:", strs)
-        print("property demands class:", v.get("expected"))
-        return 0 if strs and strs[-1][0] == v.get("expected") else 1
+        by_text = {str(x): type(x).__name__ for x in all_nodes(soup) if isinstance(x, e["el"].NavigableString)}
+        print("markup:", c["markup"], "config:", c["config"], "string_containers:", sc, "preserve_whitespace_tags:", config_preserve(c["config"]))
+        bad = 0
+        for t, want in c["marks"]:
+            got = by_text.get(t, "<missing>")
+            print(f"text {t!r}: implementation class {got}, property demands {want}" + ("" if got == want else "   <-- differs"))
+            bad += got != want
+        for t in all_nodes(soup):
+            if is_tag(t):
+                set_exp(t, expected_interesting(sc, t.name))
+        ordinary = [t for t in all_nodes(soup) if is_tag(t) and t.name not in sc]
+        for t in ordinary[:1]:
+            want_txt = "".join(str.__str__(w[1]) for w in o_all_strings(t, False, ("d",)))
+            print(f"{t.name}.get_text(): implementation {t.get_text()!r}; with the demanded classes it would be "
+                  f"{''.join(x for x, k in c['marks'] if k in PROP_MAIN)!r} (marker texts only)")
+        return 1 if bad else 0
     if c.get("op") == "copy-config":
         soup, sc = build(c["recipe"])
         bad = copied_soup_config_failures(soup, sc)
